@@ -7,6 +7,7 @@ mkdir -p build bin evidence/replays
 cp /repo/go.sum /verif/go.sum
 rc=0
 for d in h/*/; do
+  [ -f "$d/main.go" ] || continue
   id=$(basename "$d")
   if [ -x "h/$id/build.sh" ]; then
     "h/$id/build.sh" "build/$id" > "build/$id.buildlog" 2>&1 || { echo "setup: build of $id failed"; cat "build/$id.buildlog"; rc=2; }
